@@ -17,9 +17,17 @@ import (
 
 func c18ReadTimeoutCases() []string {
 	var out []string
-	cfgs := [][2]time.Duration{{1500 * time.Millisecond, 7 * time.Second}, {9 * time.Second, 2 * time.Second}}
+	// (read timeout, lookup timeout, flush interval — 0: the default; the third configuration has a
+	// flush interval far above the read timeout: how long a call may wait in the batching queue has
+	// nothing to do with how long a written request may stay unanswered)
+	cfgs := [][3]time.Duration{{1500 * time.Millisecond, 7 * time.Second, 0}, {9 * time.Second, 2 * time.Second, 0},
+		{300 * time.Millisecond, 4 * time.Second, 3 * time.Second}}
 	for _, cfg := range cfgs {
 		rt, lt := cfg[0], cfg[1]
+		extra := []gohbase.Option{}
+		if cfg[2] > 0 {
+			extra = append(extra, gohbase.FlushInterval(cfg[2]))
+		}
 		// regular client: meta connection and a region-server connection
 		func() {
 			c := newSimCluster()
@@ -33,8 +41,8 @@ func c18ReadTimeoutCases() []string {
 				mu.Unlock()
 				return c.newConn(real.Addr())
 			}
-			v := gohbase.VerifNewClient(c, false, wrap, gohbase.Logger(discardLogger),
-				gohbase.RegionReadTimeout(rt), gohbase.RegionLookupTimeout(lt))
+			v := gohbase.VerifNewClient(c, false, wrap, append([]gohbase.Option{gohbase.Logger(discardLogger),
+				gohbase.RegionReadTimeout(rt), gohbase.RegionLookupTimeout(lt)}, extra...)...)
 			ctx, cancel := context.WithTimeout(context.Background(), 5*time.Second)
 			g, _ := hrpc.NewGetStr(ctx, "t", "k")
 			_, err := v.Client().Get(g)
@@ -66,8 +74,8 @@ func c18ReadTimeoutCases() []string {
 				mu.Unlock()
 				return c.newConn(real.Addr())
 			}
-			v := gohbase.VerifNewClient(c, true, wrap, gohbase.Logger(discardLogger),
-				gohbase.RegionReadTimeout(rt), gohbase.RegionLookupTimeout(lt))
+			v := gohbase.VerifNewClient(c, true, wrap, append([]gohbase.Option{gohbase.Logger(discardLogger),
+				gohbase.RegionReadTimeout(rt), gohbase.RegionLookupTimeout(lt)}, extra...)...)
 			ctx, cancel := context.WithTimeout(context.Background(), 2*time.Second)
 			g, _ := hrpc.NewGetStr(ctx, "t", "k")
 			// any call of a master client goes to the master connection; what it answers is irrelevant here
